@@ -3,30 +3,36 @@ import glob, json, os
 import vlib
 
 TARGETS = ["Base/Corr.vo", "C11/Model.vo", "C11/Spec.vo", "C11/ProofsMap.vo", "C11/ProofsIter.vo", "C11/ProofsInv.vo",
-           "C11/ProofsRef.vo",
+           "C11/ProofsRef.vo", "C11/Dense.vo", "C11/Props.vo",
            "C03/Model.vo", "C03/Corr.vo", "C03/Spec.vo", "C03/SpecTest.vo", "C03/ProofsDense.vo",
            "C03/ProofsSem.vo", "C03/ProofsJoint.vo", "C03/ProofsConv.vo", "C03/ProofsOps.vo",
-           "C03/ModelM.vo", "C03/CorrM.vo", "C03/ProofsM.vo", "C03/Props.vo"]
-PROPS = ["C03/Props.v"]
-PARTIAL = ("Proved in Coq, for ALL worlds/vectors/operands (no bounds), about the hand-written model coq/C03/Model.v (on top "
-           "of the shared sparse-vector model coq/C11/Model.v: heap of cells + value map + ordered key set standing for "
-           "the AVL index, justified by C19) of vector_sparse_template_math.in / vector_dense_template_math.in and the "
-           "vector templates: for a dense receiver (operands may alias it) and for a sparse receiver in any coherent "
-           "internal state (stale entries, stored zeros, value-less keys) with operands dense or OTHER sparse vectors, "
-           "VaddV/VsubV/VmulV/VdivV/VaddS/VsubS/VmulS/VdivS/Set give the element-wise result of the operands' values, "
-           "change no other vector and keep the world coherent; Equals is the point-wise predicate for epsilon > 0; "
-           "AsDense(any) and AsSparse(dense) keep every element; the joint-iterator step lemma (next visited index = "
-           "least non-zero position of receiver/operands, correct presence and values) and JOINT = JOINT3 with an empty "
-           "third operand. Carrier Z: division is Go's truncating integer division; for float types it is exact only "
-           "where the divisor divides the dividend (what the harness generates); theorems on division assume non-zero "
-           "divisors (x/0: Inf/NaN codes resp. panic are modelled and tied, no theorem). NOT proved: a sparse receiver "
-           "that is also one of its operands or shares cells with them (correspondence only); abs(Clone)/abs(NewSparse) "
-           "equations; that coherence+separation is an invariant of whole histories (each theorem re-establishes "
-           "it for its own receiver); all MATRIX operations (MaddM..MdivS, MdotM, Outer, MdotV, VdotM, Set, SetIdentity, "
-           "Reset, Equals, conversions on unsliced, untransposed matrices) are modelled in coq/C03/ModelM.v and tied by "
-           "the correspondence but carry no universally quantified theorem. Not modelled: derivatives of Real vectors "
-           "(values only), the concrete capital twins VADDV.. (C09), views/transposes (C10). Equals with epsilon <= 0 is "
-           "outside the statement (the strict test fails for equal elements; storages differ there).")
+           "C03/ModelM.vo", "C03/CorrM.vo", "C03/ProofsM.vo", "C03/Props.vo",
+           # round 2
+           "C03/ProofsAlias.vo", "C03/ProofsAlias2.vo", "C03/ProofsDiv.vo", "C03/SpecH.vo", "C03/ProofsH.vo", "C03/PropsR2.vo",
+           "C03/SpecM.vo", "C03/ProofsMBase.vo", "C03/ProofsMDense.vo", "C03/ProofsMIter.vo", "C03/ProofsMJ.vo",
+           "C03/ProofsMLoops.vo", "C03/ProofsMSet.vo", "C03/ProofsMDot.vo", "C03/ProofsMDot2.vo", "C03/ProofsMInd.vo",
+           "C03/PropsM.vo"]
+PROPS = ["C03/Props.v", "C03/PropsR2.v", "C03/PropsM.v"]
+PARTIAL = ("Proved in Coq, for ALL worlds/vectors/matrices/operands (no bounds), about the hand-written models coq/C03/Model.v "
+           "(vectors) and coq/C03/ModelM.v (whole matrices: header + one sparse vector / row-major list), both on top of the "
+           "shared sparse-vector model coq/C11/Model.v (heap of cells + value map + ordered key set standing for the AVL index, "
+           "justified by C19). Carrier Z (exact arithmetic; the element types' rounding is abstracted: sums of products are "
+           "re-associated freely in the MdotM/MdotV/VdotM theorems): division is Go's truncating integer division, exact for the "
+           "float types only where the divisor divides the dividend (what the harness generates); x/0 on the float types is "
+           "proved on the carrier extended by the codes of +Inf/-Inf/NaN for FINITE operands. NOT covered by a theorem: "
+           "operands that are themselves non-finite and the derivatives of Real elements (Go-level differential run only, "
+           "harness/c03/special.go: six classes of storage/prior-content dependence reproduce on the unchanged library and are "
+           "reported as KNOWN-FINDING); for the Real types the iterators' notion of 'null' (value and derivatives) differs from "
+           "the matrix joint iterators' Ok() (value only), which the Z carrier cannot express (C03-MJOINT-DERIV0). Matrix "
+           "theorems are for whole matrices only (views/transposes: C10) and for a sparse receiver distinct from its operands "
+           "(the code panics for MdotM r = a / r = b; for the element-wise matrix operations aliasing is tied by the "
+           "correspondence only); dense r.MdotM(r, r) is the known finding F-MDOTM-RR (modelled, refuted, excluded by "
+           "hypothesis); MdotM requires non-empty matrices (storageLocation() panics otherwise, dense and sparse alike) and "
+           "MdotV/VdotM a non-empty inner dimension (C03-MDOTV-EMPTY: the receiver keeps its prior content). Whole-history "
+           "theorem: vector operations + C11's 25 container operations; matrix operations are per-call theorems whose "
+           "hypothesis (GoodM) is re-established by each of them for its receiver. abs(Clone) is C11's theorem; VdivV on a "
+           "float type with a zero divisor AND a sparse receiver among its operands has no theorem (tied only). The concrete "
+           "capital twins VADDV.. are C09's. Equals with epsilon <= 0 is outside the statement.")
 KNOWN_PROPOSED = os.path.join(vlib.ROOT, "corpus/C03/known_findings_proposed.json")
 CORPUS = os.path.join(vlib.ROOT, "corpus/C03/corpus.jsonl")
 SPECIAL_CORPUS = os.path.join(vlib.ROOT, "corpus/C03/special.jsonl")
@@ -39,6 +45,10 @@ def known_list():
         for f in json.load(open(KNOWN_PROPOSED)):
             if f.get("property") == "C03" and f["id"] not in ids:
                 out.append(f)
+    # referenced, not duplicated: dense r.MdotM(r, r) is listed under C08
+    for f in vlib.known_findings("C08"):
+        if f["id"] == "F-MDOTM-RR":
+            out.append(f)
     return out
 
 
@@ -169,10 +179,12 @@ def run(ctx):
         "axioms: see 'print_assumptions' (expected: closed under the global context)"]
     ctx.cov["partial"] = PARTIAL
     ok, failures = vlib.proof_stage(ctx, TARGETS, PROPS)
-    thms = vlib.theorem_names(os.path.join(vlib.COQ, "C03/Props.v"))
-    ctx.cov["theorems"] = thms
+    mods = [("C03.Props", vlib.theorem_names(os.path.join(vlib.COQ, "C03/Props.v"))),
+            ("C03.PropsR2", vlib.theorem_names(os.path.join(vlib.COQ, "C03/PropsR2.v"))),
+            ("C03.PropsM", vlib.theorem_names(os.path.join(vlib.COQ, "C03/PropsM.v")))]
+    ctx.cov["theorems"] = [t for _, ths in mods for t in ths]
     if ok:
-        ctx.cov["print_assumptions"] = vlib.print_assumptions("C03", [("C03.Props", thms)], ctx.dir)
+        ctx.cov["print_assumptions"] = vlib.print_assumptions("C03", mods, ctx.dir)
     binary, blog = vlib.build_harness("c03")
     if binary is None:
         ctx.violation({"obligation": "build of harness/c03 against the library", "log": blog[-3000:]}, False,
